@@ -90,8 +90,13 @@ def generate(ctx, cfg, consts, timeout=1500, workers=6, simulate=None):
 def pick(scripts, n_interesting, n_other, seed):
     """All (up to n) scripts for which the model predicts a loss/duplicate (deterministic order,
     spread over the list) + a seeded sample of the others."""
-    hot = [s for s in scripts if s["predicts_loss"] or s["predicts_dup"]]
-    cold = [s for s in scripts if not (s["predicts_loss"] or s["predicts_dup"])]
+    def interesting(s):
+        # the model predicts a loss/duplicate, or Close/Shutdown is issued while a storage write is held
+        # (the schedule behind the repaired queue-abandon defect: it must stay covered in every seed)
+        return (s["predicts_loss"] or s["predicts_dup"]
+                or any(c["c"] in ("close", "shutdown") and c["pend"] for c in s["hist"]))
+    hot = [s for s in scripts if interesting(s)]
+    cold = [s for s in scripts if not interesting(s)]
     if len(hot) > n_interesting:
         step = len(hot) / float(n_interesting)
         hot = [hot[int(i * step)] for i in range(n_interesting)]
